@@ -4,6 +4,6 @@ CONSTANTS
   RN = {"r"}
   XN = {"x"}
   Missing = "zz"
-  FX = {""}
+  FX = {"", "zz"}
 INVARIANTS InvCheckExact InvCheckCount InvCheckAllowed
 CHECK_DEADLOCK FALSE
